@@ -259,7 +259,21 @@ const (
 	parkBoundary parkKind = iota // before an operation starts
 	parkStep                     // in the step hook
 	parkDone                     // task finished
+	parkSync                     // before a synchronisation operation of the library (instrumented build only)
 )
+
+// instrBuild is set by builds against the instrumented library copy.
+var instrBuild bool
+
+// currentTask is the one task the interleave scheduler has released
+// (instrumented builds only; never set in window mode).
+var currentTask *task
+
+func syncYield() {
+	if t := currentTask; t != nil {
+		t.yield(parkEvent{kind: parkSync, node: "sync"})
+	}
+}
 
 type parkEvent struct {
 	kind    parkKind
@@ -608,6 +622,7 @@ type RunStats struct {
 	DSTCrossed     int            `json:"dst_crossed"`
 	GCBetweenKV    int            `json:"gc_between_kv"`
 	BlockedInLibrary int          `json:"blocked_in_library"`
+	SyncYields     int            `json:"sync_yields"`
 }
 
 func newRunStats() *RunStats {
@@ -807,12 +822,16 @@ func (w *world) runConcurrent() *runResult {
 		// Release the window and wait for every member to park again.
 		// Release and collect are the only synchronisation: they order
 		// windows, not the members of one window.
+		if instrBuild && sc.Mode == "interleave" && len(members) == 1 {
+			currentTask = members[0]
+		}
 		for _, t := range members {
 			close(t.cur.release)
 		}
 		for _, t := range members {
 			collect(t)
 		}
+		currentTask = nil
 		pollBlocked()
 		parked := members[:0:0]
 		for _, t := range members {
@@ -835,6 +854,9 @@ func (w *world) runConcurrent() *runResult {
 				if ev.node == "keyvalue" {
 					kvSeen = true
 				}
+			case parkSync:
+				logf(" t%d:op%d:sync", t.id, ev.op)
+				res.stats.SyncYields++
 			case parkBoundary:
 				logf(" t%d:op%d:begin", t.id, ev.op)
 			case parkDone:
